@@ -28,6 +28,11 @@ pub enum Op {
     Clone,
     /// switch to the other slot (if it exists)
     Swap,
+    /// n bytes through a std::io::Read adaptor: 0 = read_vectored into three slices, 1 = by_ref().take(n).read_to_end,
+    /// 2 = bytes() one at a time (n capped at 300), 3 = io::copy from by_ref().take(n)
+    ReadVia(u32, u8),
+    /// Seek::rewind
+    Rewind,
 }
 
 #[derive(Clone, Debug, Serialize, Deserialize)]
@@ -113,6 +118,67 @@ pub fn check(c: &Case) -> Result<(), String> {
                 eq_bytes(&format!("{}: {} output bytes vs spec S[p..p+n]", what, n), &buf, &want)?;
                 s.pos += n as u64;
             }
+            #[cfg(feature = "full")]
+            Op::ReadVia(n, via) => {
+                use std::io::Read;
+                let s = &mut slots[cur];
+                let mut n = core::cmp::min(*n as u64, MAX_POS - s.pos) as usize;
+                if via % 4 == 2 {
+                    n = core::cmp::min(n, 300);
+                }
+                let mut buf = vec![0xA5u8; n];
+                match via % 4 {
+                    0 => {
+                        // the default read_vectored may fill only the first non-empty slice: repeat on what remains
+                        let mut done = 0usize;
+                        let mut guard = 0;
+                        while done < n {
+                            let rest = &mut buf[done..];
+                            let a = rest.len() / 3;
+                            let (x, yz) = rest.split_at_mut(a);
+                            let b = yz.len() / 2;
+                            let (y, z) = yz.split_at_mut(b);
+                            let mut bufs = [std::io::IoSliceMut::new(x), std::io::IoSliceMut::new(y), std::io::IoSliceMut::new(z)];
+                            let k = s.r.read_vectored(&mut bufs).map_err(|e| format!("{}: read_vectored error {}", what, e))?;
+                            ensure!(k > 0 && k <= n - done, "{}: read_vectored returned {} with {} bytes of room", what, k, n - done);
+                            done += k;
+                            guard += 1;
+                            ensure!(guard < 10_000, "ENGINE: read_vectored loop does not terminate");
+                        }
+                    }
+                    1 => {
+                        let mut v = Vec::new();
+                        let k = (&mut s.r).take(n as u64).read_to_end(&mut v).map_err(|e| format!("{}: read_to_end error {}", what, e))?;
+                        ensure!(k == n && v.len() == n, "{}: take({}).read_to_end returned {} bytes", what, n, k);
+                        buf.copy_from_slice(&v);
+                    }
+                    2 => {
+                        for (j, b) in (&mut s.r).bytes().take(n).enumerate() {
+                            buf[j] = b.map_err(|e| format!("{}: bytes() error {}", what, e))?;
+                        }
+                    }
+                    _ => {
+                        let mut v: Vec<u8> = Vec::new();
+                        let k = std::io::copy(&mut (&mut s.r).take(n as u64), &mut v).map_err(|e| format!("{}: io::copy error {}", what, e))?;
+                        ensure!(k == n as u64 && v.len() == n, "{}: io::copy moved {} of {} bytes", what, k, n);
+                        buf.copy_from_slice(&v);
+                    }
+                }
+                let want = spec.xof(s.pos, n);
+                eq_bytes(&format!("{}: {} output bytes through a Read adaptor vs spec S[p..p+n]", what, n), &buf, &want)?;
+                s.pos += n as u64;
+                ensure!(s.r.position() == s.pos, "{}: position() = {} after the adaptor consumed {} bytes, expected {}", what, s.r.position(), n, s.pos);
+            }
+            #[cfg(feature = "full")]
+            Op::Rewind => {
+                use std::io::Seek;
+                let s = &mut slots[cur];
+                s.r.rewind().map_err(|e| format!("{}: rewind error {}", what, e))?;
+                s.pos = 0;
+                ensure!(s.r.position() == 0, "{}: position() = {} after rewind", what, s.r.position());
+            }
+            #[cfg(not(feature = "full"))]
+            Op::ReadVia(..) | Op::Rewind => {}
             Op::SetPosition(p) => {
                 let s = &mut slots[cur];
                 s.r.set_position(*p);
@@ -205,10 +271,21 @@ pub fn classify(c: &Case) -> Classes {
     let mut near_end = false;
     let mut failed_seek = false;
     let mut big = false;
+    let mut adaptors = false;
     for op in &c.ops {
         match op {
-            Op::Fill(n) | Op::Read(n) | Op::ReadExact(n) => {
-                let n = core::cmp::min(*n as u64, MAX_POS - pos);
+            Op::Rewind => {
+                pos = 0;
+                seeked = true;
+            }
+            Op::Fill(n) | Op::Read(n) | Op::ReadExact(n) | Op::ReadVia(n, _) => {
+                let mut n = core::cmp::min(*n as u64, MAX_POS - pos);
+                if let Op::ReadVia(_, via) = op {
+                    adaptors = true;
+                    if via % 4 == 2 {
+                        n = n.min(300);
+                    }
+                }
                 if n > 0 {
                     if pos % 64 != 0 || n >= 17 * 64 {
                         nt_read = true;
@@ -268,6 +345,7 @@ pub fn classify(c: &Case) -> Classes {
         .tag(near_end, "read-within-4KiB-of-2^64-1")
         .tag(failed_seek, "failing-seek(negative-or-End)")
         .tag(big, "read>=16-blocks")
+        .tag(adaptors, "std-Read-adaptors(read_vectored/take+read_to_end/bytes/io::copy)")
         .tag(poss.len() == 2, "clone")
 }
 
@@ -298,7 +376,9 @@ fn op_strategy(tier: Tier) -> BoxedStrategy<Op> {
     prop_oneof![
         6 => n.clone().prop_map(Op::Fill),
         2 => n.clone().prop_map(Op::Read),
-        1 => n.prop_map(Op::ReadExact),
+        1 => n.clone().prop_map(Op::ReadExact),
+        2 => (n, 0u8..4).prop_map(|(n, via)| Op::ReadVia(n, via)),
+        1 => Just(Op::Rewind),
         4 => gen::position_lattice().prop_map(Op::SetPosition),
         2 => gen::position_lattice().prop_map(Op::SeekStart),
         3 => prop_oneof![
@@ -324,7 +404,7 @@ pub fn strategy(tier: Tier) -> BoxedStrategy<Case> {
 pub fn subs() -> Vec<Box<dyn DynSub>> {
     vec![Box::new(PropSub::<Case> {
         name: "streams",
-        rule: "proptest: root state (mode x input biased to block/chunk edges, or merge_subtrees_root_xof over random CVs) x 0-30 ops (0-80 thorough) of fill/read/read_exact/set_position/seek(Start|Current|End)/position/stream_position/clone/swap; positions from the 64*K lattice (small, 2^32-block edge, 2^33, 2^64-1-d, random), reads clamped to stay <= 2^64-1; model = u64 position + spec S[p..p+n]; non-trivial = a successful seek/set_position and a read starting mid-block or spanning >=17 blocks",
+        rule: "proptest: root state (mode x input biased to block/chunk edges, or merge_subtrees_root_xof over random CVs) x 0-30 ops (0-80 thorough) of fill/read/read_exact/read_vectored/take+read_to_end/bytes/io::copy/rewind/set_position/seek(Start|Current|End)/position/stream_position/clone/swap; positions from the 64*K lattice (small, 2^32-block edge, 2^33, 2^64-1-d, random), reads clamped to stay <= 2^64-1; model = u64 position + spec S[p..p+n]; non-trivial = a successful seek/set_position and a read starting mid-block or spanning >=17 blocks",
         cases: (200_000, 2_000_000),
         strategy,
         classify,
